@@ -271,7 +271,7 @@ func (p *PolicyManager) policyResult(np *networkv1.NetworkPolicy) (*ingressRule,
 		inRules = &ingressRule{dstIPTable: tbl}
 		for i := range np.Spec.Ingress {
 			ir := np.Spec.Ingress[i]
-			rule := p.peerRule(ir.Ports, ir.From)
+			rule := p.peerRuleInNamespace(ir.Ports, ir.From, np.Namespace)
 			if rule.ipTable != nil {
 				rule.ipTable.Name = fmt.Sprintf("%s-sip-%d-%s", NamePrefix, i, npNameHash)
 			}
@@ -285,7 +285,7 @@ func (p *PolicyManager) policyResult(np *networkv1.NetworkPolicy) (*ingressRule,
 		eRules = &egressRule{srcIPTable: tbl}
 		for i := range np.Spec.Egress {
 			ir := np.Spec.Egress[i]
-			rule := p.peerRule(ir.Ports, ir.To)
+			rule := p.peerRuleInNamespace(ir.Ports, ir.To, np.Namespace)
 			if rule.ipTable != nil {
 				rule.ipTable.Name = fmt.Sprintf("%s-dip-%d-%s", NamePrefix, i, npNameHash)
 			}
@@ -314,10 +314,16 @@ func ingressOrEgress(np *networkv1.NetworkPolicy) (ingress bool, egress bool) {
 }
 
 func (p *PolicyManager) peerRule(ports []networkv1.NetworkPolicyPort, peers []networkv1.NetworkPolicyPeer) *rule {
+	return p.peerRuleInNamespace(ports, peers, v1.NamespaceAll)
+}
+
+// peerRuleInNamespace resolves the peers of a rule of a policy living in policyNamespace
+func (p *PolicyManager) peerRuleInNamespace(ports []networkv1.NetworkPolicyPort, peers []networkv1.NetworkPolicyPeer,
+	policyNamespace string) *rule {
 	tcpPorts, udpPorts := rulePorts(ports)
 	rule := rule{tcpPorts: tcpPorts, udpPorts: udpPorts}
 	for j := range peers {
-		tbl, err := p.peerTable(&peers[j])
+		tbl, err := p.peerTable(&peers[j], policyNamespace)
 		if err != nil {
 			glog.Warningf("failed to resolve peer ipset %s, %v", peers[j].String(), err)
 			continue
@@ -361,14 +367,21 @@ func (p *PolicyManager) podSelectorToTable(podSelector *v1.LabelSelector, namesp
 	return &ipsetTable{IPSet: ipset.IPSet{SetType: ipset.HashIP}, entries: entries(list, ipset.HashIP)}, nil
 }
 
-func (p *PolicyManager) namespaceSelectorToTable(namespaceSelector *v1.LabelSelector) (*ipsetTable, error) {
+// namespaceSelectorToTable selects the pods matching podSelector (all pods if nil) of the namespaces matching namespaceSelector
+func (p *PolicyManager) namespaceSelectorToTable(namespaceSelector, podSelector *v1.LabelSelector) (*ipsetTable, error) {
 	namespaces, err := p.getNamespaces(namespaceSelector)
 	if err != nil {
 		return nil, err
 	}
+	podLabelSelector := labels.Everything()
+	if podSelector != nil {
+		if podLabelSelector, err = v1.LabelSelectorAsSelector(podSelector); err != nil {
+			return nil, fmt.Errorf("failed to convert pod labelSelector %s to selector: %v", podSelector.String(), err)
+		}
+	}
 	var pods []*corev1.Pod
 	for i := range namespaces {
-		list, err := p.podLister.Pods(namespaces[i].Name).List(labels.Everything())
+		list, err := p.podLister.Pods(namespaces[i].Name).List(podLabelSelector)
 		if err != nil {
 			return nil, fmt.Errorf("failed to list pods in namespace %s: %v", namespaces[i].Name, err)
 		}
@@ -377,12 +390,14 @@ func (p *PolicyManager) namespaceSelectorToTable(namespaceSelector *v1.LabelSele
 	return &ipsetTable{IPSet: ipset.IPSet{SetType: ipset.HashIP}, entries: entries(pods, ipset.HashIP)}, nil
 }
 
-func (p *PolicyManager) peerTable(peer *networkv1.NetworkPolicyPeer) (*ipsetTable, error) {
-	if peer.PodSelector != nil {
-		return p.podSelectorToTable(peer.PodSelector, v1.NamespaceAll)
-	}
+func (p *PolicyManager) peerTable(peer *networkv1.NetworkPolicyPeer, policyNamespace string) (*ipsetTable, error) {
 	if peer.NamespaceSelector != nil {
-		return p.namespaceSelectorToTable(peer.NamespaceSelector)
+		// with a podSelector too: the pods matching it in the selected namespaces
+		return p.namespaceSelectorToTable(peer.NamespaceSelector, peer.PodSelector)
+	}
+	if peer.PodSelector != nil {
+		// a podSelector alone selects pods of the policy's own namespace
+		return p.podSelectorToTable(peer.PodSelector, policyNamespace)
 	}
 	if peer.IPBlock != nil {
 		return ipBlockToTable(peer.IPBlock.CIDR, peer.IPBlock.Except)
@@ -769,6 +784,37 @@ func (p *PolicyManager) SyncPodIPInIPSet(pod *corev1.Pod, add bool) {
 	}
 }
 
+// peerSelectsPod tells if a podSelector/namespaceSelector peer of a policy in policyNamespace selects pod
+func (p *PolicyManager) peerSelectsPod(peer *networkv1.NetworkPolicyPeer, policyNamespace string, pod *corev1.Pod) bool {
+	if peer.PodSelector != nil {
+		peerPodLabelSelector, err := v1.LabelSelectorAsSelector(peer.PodSelector)
+		if err != nil {
+			glog.Warningf("failed to convert pod labelSelector %s to selector: %v", peer.PodSelector.String(), err)
+			return false
+		}
+		if !peerPodLabelSelector.Matches(labels.Set(pod.Labels)) {
+			return false
+		}
+		if peer.NamespaceSelector == nil {
+			return pod.Namespace == policyNamespace
+		}
+	}
+	if peer.NamespaceSelector == nil {
+		return false
+	}
+	namespaces, err := p.getNamespaces(peer.NamespaceSelector)
+	if err != nil {
+		glog.Warning(err)
+		return false
+	}
+	for _, ns := range namespaces {
+		if ns.Name == pod.Namespace {
+			return true
+		}
+	}
+	return false
+}
+
 // #lizard forgives
 func (p *PolicyManager) syncIngressInIPSet(policy *policy, pod *corev1.Pod, add bool) {
 	if policy.ingressRule == nil {
@@ -776,29 +822,9 @@ func (p *PolicyManager) syncIngressInIPSet(policy *policy, pod *corev1.Pod, add 
 		return
 	}
 	for i, ingress := range policy.np.Spec.Ingress {
-		for _, peer := range ingress.From {
-			if peer.PodSelector != nil {
-				peerPodLabelSelector, err := v1.LabelSelectorAsSelector(peer.PodSelector)
-				if err != nil {
-					glog.Warningf("failed to convert pod labelSelector %s to selector: %v",
-						policy.np.Spec.PodSelector.String(), err)
-					continue
-				}
-				if peerPodLabelSelector.Matches(labels.Set(pod.Labels)) {
-					p.addOrDelIPSetEntry(add, &policy.ingressRule.srcRules[i].ipTable.IPSet, pod.Status.PodIP)
-				}
-			} else if peer.NamespaceSelector != nil {
-				namespaces, err := p.getNamespaces(peer.NamespaceSelector)
-				if err != nil {
-					glog.Warning(err)
-					continue
-				}
-				for _, ns := range namespaces {
-					if ns.Name == pod.Namespace {
-						p.addOrDelIPSetEntry(add, &policy.ingressRule.srcRules[i].ipTable.IPSet, pod.Status.PodIP)
-						break
-					}
-				}
+		for j := range ingress.From {
+			if p.peerSelectsPod(&ingress.From[j], policy.np.Namespace, pod) {
+				p.addOrDelIPSetEntry(add, &policy.ingressRule.srcRules[i].ipTable.IPSet, pod.Status.PodIP)
 			}
 		}
 	}
@@ -811,29 +837,9 @@ func (p *PolicyManager) syncEgressInIPSet(policy *policy, pod *corev1.Pod, add b
 		return
 	}
 	for i, egress := range policy.np.Spec.Egress {
-		for _, peer := range egress.To {
-			if peer.PodSelector != nil {
-				peerPodLabelSelector, err := v1.LabelSelectorAsSelector(peer.PodSelector)
-				if err != nil {
-					glog.Warningf("failed to convert pod labelSelector %s to selector: %v",
-						policy.np.Spec.PodSelector.String(), err)
-					continue
-				}
-				if peerPodLabelSelector.Matches(labels.Set(pod.Labels)) {
-					p.addOrDelIPSetEntry(add, &policy.egressRule.dstRules[i].ipTable.IPSet, pod.Status.PodIP)
-				}
-			} else if peer.NamespaceSelector != nil {
-				namespaces, err := p.getNamespaces(peer.NamespaceSelector)
-				if err != nil {
-					glog.Warning(err)
-					continue
-				}
-				for _, ns := range namespaces {
-					if ns.Name == pod.Namespace {
-						p.addOrDelIPSetEntry(add, &policy.egressRule.dstRules[i].ipTable.IPSet, pod.Status.PodIP)
-						break
-					}
-				}
+		for j := range egress.To {
+			if p.peerSelectsPod(&egress.To[j], policy.np.Namespace, pod) {
+				p.addOrDelIPSetEntry(add, &policy.egressRule.dstRules[i].ipTable.IPSet, pod.Status.PodIP)
 			}
 		}
 	}
